@@ -1210,6 +1210,109 @@ theorem weightedF_mono (i i' p p' s s' c c' wI wP wS wC : Dbl)
       exact not_lt.mpr (le_trans hsum (not_lt.mp h'))
     rw [if_neg this]; exact hsum
 
+/-! ### Operand order of `(*IndividualNode).Similarity` on the float64 values -/
+
+/-- the running maximum over a list: an upper bound of the start value and of every element, and
+    attained by one of them -/
+theorem maxFold_spec {α : Type} (f : α → Dbl) (l : List α) (acc : Dbl) :
+    let r := l.foldl (fun acc m => if F64.lt acc (f m) then f m else acc) acc
+    F64.le acc r ∧ (∀ m ∈ l, F64.le (f m) r) ∧ (r = acc ∨ ∃ m ∈ l, r = f m) := by
+  induction l generalizing acc with
+  | nil => simp [F64.le]
+  | cons a l ih =>
+    simp only [List.foldl_cons]
+    by_cases h : F64.lt acc (f a)
+    · rw [if_pos h]
+      obtain ⟨h1, h2, h3⟩ := ih (f a)
+      refine ⟨?_, ?_, ?_⟩
+      · rw [le_iff_toQ] at h1 ⊢; rw [lt_iff_toQ] at h; exact le_trans h.le h1
+      · intro m hm
+        rcases List.mem_cons.mp hm with e | e
+        · rw [e]; exact h1
+        · exact h2 m e
+      · rcases h3 with e | ⟨m, hm, e⟩
+        · right; exact ⟨a, by simp, e⟩
+        · right; exact ⟨m, by simp [hm], e⟩
+    · rw [if_neg h]
+      obtain ⟨h1, h2, h3⟩ := ih acc
+      refine ⟨h1, ?_, ?_⟩
+      · intro m hm
+        rcases List.mem_cons.mp hm with e | e
+        · rw [e]; rw [le_iff_toQ] at h1 ⊢; rw [lt_iff_toQ] at h; exact le_trans (not_lt.mp h) h1
+        · exact h2 m e
+      · rcases h3 with e | ⟨m, hm, e⟩
+        · left; exact e
+        · right; exact ⟨m, by simp [hm], e⟩
+
+/-- the outer fold of the name matrix never falls below its start value -/
+theorem nameFold_ge_start (ns ms : List Str) (boost : Dbl) (pre : Nat) (z : Dbl) :
+    F64.le z (ns.foldl (fun acc n => ms.foldl (fun acc m =>
+        let s := stringSimilarityF n m boost pre
+        if F64.lt acc s then s else acc) acc) z) := by
+  induction ns generalizing z with
+  | nil => simp [F64.le]
+  | cons n ns ih =>
+    simp only [List.foldl_cons]
+    have a := (maxFold_spec (fun m => stringSimilarityF n m boost pre) ms z).1
+    exact le_trans' a (ih _)
+
+/-- the name score: an upper bound of every pair's score, and the start value or attained by a
+    pair -/
+theorem nameFold_spec (ns ms : List Str) (boost : Dbl) (pre : Nat) (z : Dbl) :
+    let r := ns.foldl (fun acc n => ms.foldl (fun acc m =>
+        let s := stringSimilarityF n m boost pre
+        if F64.lt acc s then s else acc) acc) z
+    (∀ n ∈ ns, ∀ m ∈ ms, F64.le (stringSimilarityF n m boost pre) r) ∧
+    (r = z ∨ ∃ n ∈ ns, ∃ m ∈ ms, r = stringSimilarityF n m boost pre) := by
+  induction ns generalizing z with
+  | nil => simp
+  | cons n ns ih =>
+    simp only [List.foldl_cons]
+    obtain ⟨_, i2, i3⟩ := maxFold_spec (fun m => stringSimilarityF n m boost pre) ms z
+    obtain ⟨j1, j2⟩ := ih (ms.foldl (fun acc m =>
+      let s := stringSimilarityF n m boost pre
+      if F64.lt acc s then s else acc) z)
+    have hstart := nameFold_ge_start ns ms boost pre (ms.foldl (fun acc m =>
+      let s := stringSimilarityF n m boost pre
+      if F64.lt acc s then s else acc) z)
+    refine ⟨?_, ?_⟩
+    · intro n' hn' m hm
+      rcases List.mem_cons.mp hn' with e | e
+      · rw [e]; exact le_trans' (i2 m hm) hstart
+      · exact j1 n' e m hm
+    · rcases j2 with e | ⟨n', hn', m, hm, e⟩
+      · rcases i3 with e' | ⟨m, hm, e'⟩
+        · left; rw [e]; exact e'
+        · right; exact ⟨n, by simp, m, hm, by rw [e]; exact e'⟩
+      · right; exact ⟨n', by simp [hn'], m, hm, e⟩
+
+/-- **Operand order of the name score** on the float64 values: the same value in both directions
+    (the maximum of the same scores, each symmetric bit for bit) -/
+theorem nameSimilarityF_symm_value (ns ms : List Str) (boost : Dbl) (pre : Nat) :
+    F64.le (nameSimilarityF ns ms boost pre) (nameSimilarityF ms ns boost pre) := by
+  unfold nameSimilarityF
+  obtain ⟨_, a2⟩ := nameFold_spec ns ms boost pre ⟨0, 0⟩
+  obtain ⟨b1, _⟩ := nameFold_spec ms ns boost pre ⟨0, 0⟩
+  rcases a2 with e | ⟨n, hn, m, hm, e⟩
+  · rw [e]; exact zero_le _
+  · rw [e, stringSimilarityF_symm n m boost pre]
+    exact b1 m hm n hn
+
+theorem le_refl' (w : Dbl) : F64.le w w := by unfold F64.le; exact Nat.le_refl _
+
+/-- **Operand order of `(*IndividualNode).Similarity`** on the float64 values: swapping the two
+    individuals gives the same value (`≤` in both directions, hence equal as values): the date
+    scores are equal bit for bit, the name score is the maximum of the same symmetric scores, and
+    the mix is monotone in it -/
+theorem indiSimilarityF_symm_value (x y : Sim.Indi) (o : Sim.SimOpts) :
+    F64.le (indiSimilarityF x y o) (indiSimilarityF y x o) := by
+  unfold indiSimilarityF
+  simp only
+  rw [dateNodeSimilarityF_symm y.birth x.birth, dateNodeSimilarityF_symm y.death x.death]
+  unfold mixF
+  exact add_mono _ _ _ _
+    (mul_mono _ _ _ _ (nameSimilarityF_symm_value x.names y.names _ _) (le_refl' _)) (le_refl' _)
+
 /-! ### The float64 `Minimum()` that selects the estimated dates -/
 
 /-- the fold of `minimumRangeF`: the result is the accumulator or an element of the list, and no
